@@ -11,7 +11,7 @@ taken through, on both FFIs,
   (c) getctype(T, 'v_i') lines, compiled by gcc after the context's C
       declarations, must be accepted and sizeof(v_i) == ffi.sizeof(T).
 """
-import os, sys, re, random
+import os, sys, re, random, subprocess
 from vlib import core, cc, gen_cdef as GC, gen_tstr as TS
 
 RULE = ("case = (declaration context, ctype T denoted by a C07-grammar type string, FFI "
@@ -41,7 +41,7 @@ SAN_DECIDES = False     # see judge(): only reports in the name-building path de
 
 def generate(ctx):
     rng = ctx.rng('gen')
-    nctx = ctx.scale(20, 300)
+    nctx = ctx.scale(20, 500)
     per = 2
     seeds = [rng.getrandbits(40) for _ in range(nctx)]
     return None, [{'seeds': seeds[i:i + per], 'ntypes': 100} for i in range(0, nctx, per)]
@@ -386,8 +386,8 @@ def child_case(st, case):
 DECLS = {}
 NAMEPATH = re.compile(r'getctype|getcname|_combine_type_name|ctypedescr_new_on_top|fb_build_name')
 INTERNAL = re.compile(r'\b_cffi_(float|double)_complex_t\b')
-COMPLEX_TD = ('#define __cdecl\n#define __stdcall\n'
-              'typedef float _Complex _cffi_float_complex_t;\n'
+CCONV = '#define __cdecl\n#define __stdcall\n'
+COMPLEX_TD = ('typedef float _Complex _cffi_float_complex_t;\n'
               'typedef double _Complex _cffi_double_complex_t;\n')
 
 
@@ -408,7 +408,7 @@ def probe(tmp, prelude, lines, retry=True):
     sizes is None when gcc rejects something else than one of the declarations.  Keys
     3000000+k of rejected: the *source* type string of T is itself not valid C."""
     rejected = {}
-    for attempt in range(2):
+    while True:
         src, body = [cc.PRELUDE, prelude], []
         for k, (ti, label, kd, var, line, size, s) in enumerate(lines):
             if k in rejected or 3000000 + k in rejected:
@@ -427,14 +427,14 @@ def probe(tmp, prelude, lines, retry=True):
             if rc != 0:
                 return None, {'run': err[-500:]}
             return dict((ln.split()[0], int(ln.split()[1])) for ln in out.splitlines()), rejected
+        before = len(rejected)
         for m in re.finditer(r':([123]\d{6}):\d+: error: (.*)', msg):
             n = int(m.group(1))
             rejected.setdefault(n if n >= 3000000 else n % 1000000, m.group(2))
-        if not retry and rejected:
-            return {}, rejected
-        if attempt or not rejected:
+        if len(rejected) == before:
             return None, {'compile': msg[-1500:]}
-    return None, rejected
+        if not retry:
+            return {}, rejected
 
 
 def finalize(ctx, setup):
@@ -447,8 +447,11 @@ def finalize(ctx, setup):
         (seed, ntypes), lines = item
         src = make_ctx(seed).c_source()
         internal = [ln for ln in lines if INTERNAL.search(ln[4])]
-        return (probe(ctx.tmp, COMPLEX_TD + src, lines),
-                probe(ctx.tmp, '#define __cdecl\n#define __stdcall\n' + src, internal, False) if internal else None)
+        try:
+            return (probe(ctx.tmp, CCONV + COMPLEX_TD + src, lines),
+                    probe(ctx.tmp, CCONV + src, internal, False) if internal else None)
+        except subprocess.TimeoutExpired:
+            return (None, 'gcc timeout'), None
     with cf.ThreadPoolExecutor(8) as ex:
         results = list(ex.map(work, todo))
     for ((seed, ntypes), lines), ((sizes, rejected), internal) in zip(todo, results):
